@@ -185,3 +185,231 @@ if __name__ == "__main__":
                 continue
             seen.add(v["what"])
             print(json.dumps(v, default=str)[:400])
+
+
+# ---------------------------------------------------------------------------------------------
+def check_c06(seed, tier):
+    """pairwise identical trees for different records_per_chunk, except preferred_chunksizes = min(rpc, n)"""
+    import treecmp
+
+    rng = random.Random(seed + 6)
+    viol, evals, distinct, samples = [], 0, set(), []
+    geos = [(5, 3), (6, 2), (1, 4)] if tier == "quick" else [(1, 1), (1, 4), (5, 3), (6, 2), (12, 3), (31, 2)]
+    for (n, m) in geos:
+        for level in ("1.1", "1.5"):
+            cfg = {"seed": rng.randrange(10**9), "level": level, "images": [("HH", None), ("HV", None)], "n_lines": n, "n_pixels": m}
+            prod = products.build(cfg)
+            path, clean = products.place(prod, rng.choice(["local", "memory"]))
+            try:
+                rl = sorted({1, 2, 3, max(1, n - 1), n, n + 1, 2 * n, 1024, 10**9})
+                if tier == "quick":
+                    rl = rng.sample(rl, 4)
+                fps = {}
+                for rpc in rl:
+                    t = _open(path, records_per_chunk=rpc)
+                    fps[rpc] = treecmp.fingerprint_tree(t, skip_encoding_keys=("preferred_chunksizes",))
+                    for g in ("HH", "HV"):
+                        evals += 1
+                        enc = t[f"imagery/{g}/data"].encoding.get("preferred_chunksizes")
+                        want = {"rows": min(rpc, n), "columns": m}
+                        distinct.add((n, m, level, rpc, g))
+                        if enc != want:
+                            viol.append({"case": {"cfg": cfg, "rpc": rpc, "group": g}, "what": f"preferred_chunksizes {enc} != {want}"})
+                base = rl[0]
+                for rpc in rl[1:]:
+                    evals += 1
+                    distinct.add((n, m, level, base, rpc))
+                    d = treecmp.diff(fps[base], fps[rpc])
+                    if d:
+                        viol.append({"case": {"cfg": cfg, "rpc_pair": [base, rpc]}, "what": "trees differ: " + d})
+                    elif len(samples) < 2:
+                        samples.append({"cfg": cfg, "rpc_pair": [base, rpc], "nodes": len(fps[base])})
+            except Exception as e:  # noqa: BLE001
+                viol.append({"case": {"cfg": cfg}, "what": f"{type(e).__name__}: {e}"[:300], "key": common.failure_site(e)})
+            finally:
+                clean()
+    return {"name": "oracle:C06 records_per_chunk independence", "evaluations": evals, "distinct": len(distinct), "violations": viol, "samples": samples}
+
+
+# ---------------------------------------------------------------------------------------------
+def _img_events(events, name):
+    return [e for e in events if e[1].endswith(name)]
+
+
+def check_c11(seed, tier):
+    """I/O trace on an instrumented filesystem: open pass and data loads"""
+    import math
+
+    rng = random.Random(seed + 11)
+    TFS = common.register_trace_protocol()
+    viol, evals, distinct, samples = [], 0, set(), []
+    geos = [(5, 3), (7, 2)] if tier == "quick" else [(1, 3), (5, 3), (7, 2), (12, 4), (30, 2)]
+    for (n, m) in geos:
+        for level in ("1.1", "1.5"):
+            cfg = {"seed": rng.randrange(10**9), "level": level, "images": [("HH", None), ("VV", None)], "n_lines": n, "n_pixels": m}
+            prod = products.build(cfg)
+            im = prod.images[0]
+            L, P = im.record_len, im.prefix_len
+            path, clean = products.place(prod, "tracemem")
+            try:
+                for rpc in ([1, 2, n, n + 3] if tier == "quick" else sorted({1, 2, 3, n - 1 or 1, n, n + 1, 1024})):
+                    del TFS.events[:]
+                    t = _open(path, records_per_chunk=rpc)
+                    ev = _img_events(TFS.events, im.name)
+                    reads = [e for e in ev if e[0] == "read"]
+                    evals += 1
+                    distinct.add((n, m, level, rpc, "open"))
+                    want_sizes = [720] + [min(rpc, n - i * rpc) * L for i in range(math.ceil(n / rpc))]
+                    pos = 0
+                    ok = len(reads) == len(want_sizes)
+                    for r, w in zip(reads, want_sizes):
+                        ok = ok and r[2] == pos and r[3] == w
+                        pos += w
+                    if not ok:
+                        viol.append({"case": {"cfg": cfg, "rpc": rpc}, "what": f"open pass reads {[(r[2], r[3]) for r in reads]} != sequential {want_sizes}"})
+                    da = t["imagery/HH/data"]
+                    space = index_space(n, m, rng, "quick")
+                    space = [ix for ix in space if not any(isinstance(v, np.ndarray) and v.size == 0 for v in ix.values())]
+                    for ix in rng.sample(space, min(len(space), 40 if tier == "quick" else 200)):
+                        del TFS.events[:]
+                        try:
+                            sel = da.isel(**ix)
+                            sel.values
+                        except Exception:  # noqa: BLE001
+                            continue
+                        evals += 1
+                        distinct.add((n, m, level, rpc, str(_describe(ix))))
+                        others = [e for e in TFS.events if not e[1].endswith(im.name)]
+                        ev = _img_events(TFS.events, im.name)
+                        rd = [e for e in ev if e[0] == "read"]
+                        # selected line span
+                        rows = np.arange(n)[ix["rows"]] if "rows" in ix else np.arange(n)
+                        rows = np.atleast_1d(rows)
+                        case = {"cfg": cfg, "rpc": rpc, "isel": _describe(ix)}
+                        if others:
+                            viol.append({"case": case, "what": f"other files touched while loading pixels: {others[:3]}"})
+                        if rows.size == 0:
+                            if rd:
+                                viol.append({"case": case, "what": f"reads for an empty selection: {rd[:3]}"})
+                            continue
+                        rchunk = min(rpc, n)
+                        lo_g, hi_g = int(rows.min()) // rchunk, int(rows.max()) // rchunk
+                        seen = set()
+                        for e in rd:
+                            off, size = e[2], e[3]
+                            g = (off - 720) // (rchunk * L)
+                            g_lo = 720 + g * rchunk * L
+                            g_hi = 720 + min((g + 1) * rchunk, n) * L
+                            bad = None
+                            if g in seen:
+                                bad = f"second read for group {g}"
+                            elif not (lo_g <= g <= hi_g):
+                                bad = f"read for group {g} outside the selected span of groups [{lo_g}, {hi_g}]"
+                            elif not (g_lo <= off and off + size <= g_hi and off + size <= len(im.data)):
+                                bad = f"read [{off}, {off + size}) not confined to group {g} = [{g_lo}, {g_hi})"
+                            seen.add(g)
+                            if bad:
+                                viol.append({"case": case, "what": bad})
+                                break
+                        if len(samples) < 2:
+                            samples.append({**case, "reads": [(e[2], e[3]) for e in rd]})
+            except Exception as e:  # noqa: BLE001
+                viol.append({"case": {"cfg": cfg}, "what": f"{type(e).__name__}: {e}"[:300], "key": common.failure_site(e)})
+            finally:
+                clean()
+    return {"name": "oracle:C11 bounded grouped reads", "evaluations": evals, "distinct": len(distinct), "violations": viol, "samples": samples}
+
+
+# ---------------------------------------------------------------------------------------------
+def check_c18(seed, tier):
+    """truncated / missing component files: open_alos2 raises (OSError family for missing files); it never returns a
+    tree whose image has fewer readable lines than its declared shape; it terminates promptly"""
+    import time
+
+    rng = random.Random(seed + 18)
+    viol, evals, distinct, samples = [], 0, set(), []
+    outcomes = {}
+
+    def attempt(files, rpc, case, expect_raise=True, missing=None):
+        nonlocal evals
+        import synth
+        prod_like = type("P", (), {"files": files})()
+        path, clean = products.place(prod_like, "local" if rng.random() < 0.5 else "memory")
+        t0 = time.time()
+        try:
+            try:
+                t = _open(path, records_per_chunk=rpc)
+                ok_tree = True
+                for node in t["imagery"].children.values():
+                    da = node["data"]
+                    v = da.values
+                    if v.shape != da.shape or any(node[c].shape[0] != da.shape[0] for c in node.coords if node[c].dims == ("rows",)):
+                        ok_tree = False
+                res = "returned-consistent" if ok_tree else "returned-inconsistent"
+                exc = None
+            except Exception as e:  # noqa: BLE001
+                res, exc = "raised", e
+        finally:
+            clean()
+        dt = time.time() - t0
+        evals += 1
+        outcomes[res if exc is None else type(exc).__name__] = outcomes.get(res if exc is None else type(exc).__name__, 0) + 1
+        if dt > 20:
+            viol.append({"case": case, "what": f"took {dt:.1f}s"})
+        if res == "returned-inconsistent":
+            viol.append({"case": case, "what": "open_alos2 returned a tree whose image has fewer readable lines than declared"})
+        elif expect_raise and res != "raised":
+            viol.append({"case": case, "what": "damaged product opened without an exception"})
+        elif missing and exc is not None and not isinstance(exc, OSError):
+            viol.append({"case": case, "what": f"missing {missing} reported as {type(exc).__name__}, not an OSError"})
+        return res
+
+    geos = [(5, 3)] if tier == "quick" else [(1, 2), (5, 3), (9, 2)]
+    for (n, m) in geos:
+        for level in ("1.1", "1.5"):
+            cfg = {"seed": rng.randrange(10**9), "level": level, "images": [("HH", None), ("HV", None)], "n_lines": n, "n_pixels": m}
+            prod = products.build(cfg)
+            im = prod.images[1]
+            L, P = im.record_len, im.prefix_len
+            names = list(prod.files)
+            vol = [k for k in names if k.startswith("VOL")][0]
+            led = [k for k in names if k.startswith("LED")][0]
+            # image truncations
+            pts = set()
+            for i in range(n + 1):
+                for d in (-1, 0, 1):
+                    pts.add(720 + i * L + d)
+                pts.add(720 + i * L + P)
+            pts |= {0, 1, 719, 720, 721} | {rng.randrange(len(im.data)) for _ in range(6)}
+            pts = sorted(p for p in pts if 0 <= p < len(im.data))
+            if tier == "quick":
+                pts = rng.sample(pts, min(len(pts), 14))
+            for cut in pts:
+                for rpc in ([max(1, n - 2), n, n + 1] if tier != "quick" else [rng.choice([1, max(1, n - 2), n, n + 1, 1024])]):
+                    files = dict(prod.files)
+                    files[im.name] = im.data[:cut]
+                    distinct.add((n, m, level, "img", cut, rpc))
+                    attempt(files, rpc, {"cfg": cfg, "truncate": [im.name, cut], "rpc": rpc})
+            # leader / volume truncations
+            for name, data in ((led, prod.files[led]), (vol, prod.files[vol])):
+                bounds = [0, 1, 12, 360, 719, 720, 721, 720 + 4096, len(data) - 5000, len(data) - 1, len(data) - 360] + [rng.randrange(len(data)) for _ in range(4)]
+                for cut in sorted({b for b in bounds if 0 <= b < len(data)}):
+                    files = dict(prod.files)
+                    files[name] = data[:cut]
+                    distinct.add((n, m, level, name[:3], cut))
+                    attempt(files, 1024, {"cfg": cfg, "truncate": [name, cut]})
+            # missing files
+            for name in ["summary.txt", vol, led, prod.images[0].name, im.name]:
+                files = {k: v for k, v in prod.files.items() if k != name}
+                distinct.add((n, m, level, "missing", name[:3]))
+                attempt(files, 1024, {"cfg": cfg, "missing": name}, missing=name)
+            # trailer missing: never read -> must still open
+            trl = [k for k in names if k.startswith("TRL")][0]
+            files = {k: v for k, v in prod.files.items() if k != trl}
+            r = attempt(files, 1024, {"cfg": cfg, "missing": trl}, expect_raise=False)
+            # control: the undamaged product opens
+            r = attempt(dict(prod.files), rng.choice([1, n, 1024]), {"cfg": cfg, "control": True}, expect_raise=False)
+            if r != "returned-consistent":
+                viol.append({"case": {"cfg": cfg, "control": True}, "what": "undamaged product does not open"})
+    samples.append({"outcomes": outcomes})
+    return {"name": "oracle:C18 fail-stop", "evaluations": evals, "distinct": len(distinct), "violations": viol, "samples": samples}
